@@ -63,8 +63,13 @@ def main():
     dirty = sh(["git", "-C", REPO, "status", "--porcelain"]).stdout.strip()
     print(f"\n{len(rows)} changes, {missed} not detected; /repo {'DIRTY' if dirty else 'clean'}")
     with open(os.path.join(SEEDS, "RESULTS.md"), "w") as f:
-        f.write("| change | property | result | leg |\n|---|---|---|---|\n")
-        for r in rows: f.write(f"| {r[0]} | {r[1]} | {r[2]} | {r[3]} |\n")
+        f.write("Detection of every kept change by the quick checks (written by tools_seed_all.py from the meta.json files).\n\n")
+        f.write("| change | property | result | by |\n|---|---|---|---|\n")
+        for n in sorted(os.listdir(SEEDS)):
+            mp = os.path.join(SEEDS, n, "meta.json")
+            if os.path.isfile(mp):
+                m = json.load(open(mp))
+                f.write(f"| {n} | {m.get('property')} | {m.get('detected', 'not run')} | {m.get('detected_by') or '-'} |\n")
     return 1 if (missed or dirty) else 0
 
 
